@@ -1,5 +1,6 @@
 pub mod c01;
 pub mod c02;
+pub mod c03;
 pub mod c04;
 pub mod c09;
 pub mod c13;
@@ -14,6 +15,7 @@ pub fn all() -> Vec<Arc<dyn Prop>> {
     vec![
         Arc::new(c01::C01),
         Arc::new(c02::C02),
+        Arc::new(c03::C03),
         Arc::new(c04::C04),
         Arc::new(conn::ConnProp { id: "C05" }),
         Arc::new(conn::ConnProp { id: "C06" }),
